@@ -297,6 +297,9 @@ func (st *gtState) methodDiverges(g *gen, dir, key string, depth int) bool {
 }
 
 func (tr *gtTr) stmt(s ast.Stmt, env *venv, next cont) gnode {
+	if ss, ok := tr.hoistMutCall(s, env); ok {
+		return tr.block(ss, env, next)
+	}
 	switch x := s.(type) {
 	case *ast.EmptyStmt:
 		return next(env)
@@ -1091,6 +1094,9 @@ func singleIfReturn(b *ast.BlockStmt) (*ast.IfStmt, *ast.ReturnStmt) {
 
 // first-match search:  for _, x := range xs { if cond { return e } }
 func (tr *gtTr) rangeStmt(x *ast.RangeStmt, env *venv, next cont) gnode {
+	if rs := tr.asValueRange(x, env); rs != nil {
+		x = rs
+	}
 	if !isFirstMatchRange(x) {
 		return tr.generalRange(x, env, next)
 	}
